@@ -35,6 +35,9 @@ func init() {
 		"h.vmstack":        exVmStack,
 		"h.tuple":          exTuple,
 		"h.vmslice":        exVmSlice,
+		"go.h.vmstack":     noPanic(exVmStack),
+		"go.h.tuple":       noPanic(exTuple),
+		"go.h.vmslice":     noPanic(exVmSlice),
 		"go.h.tuplebroken": goTupleBroken,
 		"go.h.zeroslice":   goZeroSlice,
 		"go.net.gettx":     goNetGetTx,
@@ -71,11 +74,13 @@ func (gc *genCtx) genHelpers() {
 	for nf := 0; nf <= 5; nf++ {
 		for l := 0; l <= 6; l++ {
 			g.Emit("h.vmstack", strconv.Itoa(nf), strconv.Itoa(l))
+			g.Emit("go.h.vmstack", strconv.Itoa(nf), strconv.Itoa(l))
 		}
 	}
 	for l := 0; l <= 6; l++ {
 		for nf := 0; nf <= 6; nf++ {
 			g.Emit("h.tuple", strconv.Itoa(l), strconv.Itoa(nf))
+			g.Emit("go.h.tuple", strconv.Itoa(l), strconv.Itoa(nf))
 		}
 	}
 	for k := 0; k < g.Scale(400, 4000); k++ {
@@ -95,6 +100,7 @@ func (gc *genCtx) genHelpers() {
 			er = sr + g.Rng.Intn(refs-sr+1)
 		}
 		g.Emit("h.vmslice", strconv.Itoa(bits), strconv.Itoa(refs), strconv.Itoa(st), strconv.Itoa(en), strconv.Itoa(sr), strconv.Itoa(er))
+		g.Emit("go.h.vmslice", strconv.Itoa(bits), strconv.Itoa(refs), strconv.Itoa(st), strconv.Itoa(en), strconv.Itoa(sr), strconv.Itoa(er))
 		g.NonTrivial(fmt.Sprint("vmslice", bits, refs, st, en, sr, er))
 	}
 	for _, p := range [][2]int{{0, 0}, {1, 1}, {2, 2}, {0, 1}, {1, 2}, {2, 1}, {3, 0}} {
@@ -133,6 +139,21 @@ func exFirstRoot(a []string) string {
 	var s tlb.VmStack
 	_ = s.UnmarshalTL(bytes.NewReader(enc))
 	return "ok"
+}
+
+// noPanic turns an executor into a direct oracle: whatever it answers, it must not panic
+func noPanic(f h.ExecFn) h.ExecFn {
+	return func(a []string) (ans string) {
+		defer func() {
+			if r := recover(); r != nil {
+				ans = fmt.Sprintf("FAIL panic %v", r)
+			}
+		}()
+		if r := f(a); len(r) >= 4 && r[:4] == "FAIL" {
+			return r
+		}
+		return "ok"
+	}
 }
 
 func goFirstRoot(a []string) (ans string) {
